@@ -2,7 +2,7 @@
     (the oracle the compiled scanners are compared with, event by event). *)
 From Coq Require Import List NArith ZArith Bool.
 Import ListNotations.
-Require Import FlexV.Regex FlexV.Pat FlexV.Tokenize FlexV.Stream FlexV.StreamProofs.
+Require Import FlexV.Regex FlexV.Pat FlexV.Tokenize FlexV.Stream FlexV.StreamProofs FlexV.Conservation.
 Local Open Scope Z_scope.
 
 (** yyless(n): the first n bytes stay yytext, the rest becomes the next input, in order, nothing lost *)
@@ -38,3 +38,23 @@ Theorem C08_input_end_value_only_at_end : forall fuel l st,
   s_inp st = [] /\ ((length (s_rest st) < fuel)%nat -> concat (s_rest st) = []).
 Proof. exact input_end_value_only_at_end. Qed.
 Print Assumptions C08_input_end_value_only_at_end.
+
+(** Every input byte is consumed exactly once and in order: at every moment of a run in which yytext stays
+    defined where it is used (no yyunput(); every yyless() gives back only bytes of the token just matched and
+    comes before any yyinput() of the same action), what has been consumed followed by what is still unread is
+    the concatenation of all sources - across buffer refills, sources supplied by yywrap, yymore, yyless, yyinput. *)
+Theorem C08_bytes_conserved : forall sp sources st, Conservation.reach_ok sp (sm_init sources) st ->
+  s_done st ++ StreamProofs.unread st = concat sources.
+Proof. exact Conservation.bytes_conserved. Qed.
+Print Assumptions C08_bytes_conserved.
+
+Theorem C08_step_keeps_the_stream : forall sp st, Conservation.step_ok sp st = true ->
+  Conservation.stream (fst (fst (sm_step sp st))) = Conservation.stream st.
+Proof. exact Conservation.step_stream. Qed.
+Print Assumptions C08_step_keeps_the_stream.
+
+(** the executable form the harness evaluates on its runs is an instance *)
+Theorem C08_checked_runs_are_instances : forall sp sources fuel, fst (Conservation.run_ok fuel sp (sm_init sources)) = true ->
+  let st := snd (Conservation.run_ok fuel sp (sm_init sources)) in s_done st ++ StreamProofs.unread st = concat sources.
+Proof. exact Conservation.run_conserved. Qed.
+Print Assumptions C08_checked_runs_are_instances.
